@@ -1,8 +1,8 @@
 SPECIFICATION Spec
 CONSTANTS
   MaxCalls = 2
-  MaxFrames = 4
-  MaxReqs = 0
+  MaxFrames = 3
+  MaxReqs = 1
   DeleteOnLookup = TRUE
   Record = TRUE
 VIEW scriptview
